@@ -54,11 +54,17 @@ def eventOf : Op → Option Event
 /-- SPEC: the link a `StartSpan` link argument records -/
 def linkOf (l : Bytes × Bytes × UInt8 × KVs) : Link := ⟨l.1, l.2.1, l.2.2.1, Map.ofIterable l.2.2.2⟩
 
+/-- SPEC: the link an `AddLink` call (ABI v2) records -/
+def linkWrite : Op → Option Link
+  | .addLink tid sid fl kvs => some ⟨tid, sid, fl, Map.ofIterable kvs⟩
+  | _ => none
+
 /-! ## The record every exporter receives (closed form) -/
 
 /-- the `Recordable` call a span operation turns into while the span is recording -/
 def toRec : Op → Option RecOp
   | .setAttribute k v => some (.setAttribute k v)
+  | .addLink tid sid fl kvs => some (.addLink tid sid fl kvs)
   | .addEvent n ts kvs => some (.addEvent n ts (kvs.getD []))
   | .setStatus c d => some (.setStatus c d)
   | .updateName n => some (.setName n)
@@ -168,6 +174,9 @@ theorem exec_live (ops : List Op) : ∀ (s : State) (rs : Multi), s.recordable =
         simp only [exec, List.foldl_cons, hf, List.filterMap_cons, toRec]
         exact ih s rs h hq
       | setAttribute k v =>
+        simp only [exec, List.foldl_cons, key _ rfl, List.filterMap_cons, toRec]
+        exact ih _ _ rfl hq
+      | addLink tid sid fl kvs =>
         simp only [exec, List.foldl_cons, key _ rfl, List.filterMap_cons, toRec]
         exact ih _ _ rfl hq
       | addEvent n ts kvs =>
@@ -463,16 +472,17 @@ theorem links_foldl (rops : List RecOp) (sd : SpanData) :
 
 /-- **events_links_in_order.**  The exported events are exactly the `AddEvent` calls before the first `End`, in call
     order, each with its name, timestamp argument and own attribute map; the links are exactly the `StartSpan` links in
-    argument order with their own attribute maps. -/
+    argument order followed by the `AddLink` calls (ABI v2) before the first `End` in call order, each with its own
+    attribute map. -/
 theorem events_links_in_order (c : Cfg) (ops : List Op) :
-    (exported c ops).events = (live ops).filterMap eventOf ∧ (exported c ops).links = c.links.map linkOf := by
+    (exported c ops).events = (live ops).filterMap eventOf ∧
+    (exported c ops).links = c.links.map linkOf ++ (live ops).filterMap linkWrite := by
   constructor
   · unfold exported
     rw [events_foldl, sel_exported selEvent eventOf c ops _ [] (by intro op; cases op <;> rfl) rfl, ctor_selEvent]
     simp
   · unfold exported
-    rw [links_foldl, sel_exported selLink (fun _ => none) c ops _ [] (by intro op; cases op <;> rfl) rfl, ctor_selLink,
-      filterMap_const_none]
+    rw [links_foldl, sel_exported selLink linkWrite c ops _ [] (by intro op; cases op <;> rfl) rfl, ctor_selLink]
     simp
 
 /-- the own attributes of an event or link: last write wins per key inside the iterable that was passed -/
@@ -608,6 +618,7 @@ def exCfg : Cfg :=
 
 def exOps : List Op :=
   [.setAttribute [97] (.i64 (-7)), .addEvent [101] (some 77) (some [([107], .strs [[], [97]])]), .updateName [111],
+   .addLink [3] [4] 0 [([107], .i32 1), ([107], .i32 2)],
    .flush, .end_ 7000, .setAttribute [122] (.bool true), .updateName [112], .end_ 9000]
 
 example : exCfg.startSteady ≠ 0 ∧ firstEnd exOps ≠ 0 := by decide
@@ -616,7 +627,8 @@ example : (exported exCfg exOps).name = [111] := by decide
 example : Map.lookup [97] (exported exCfg exOps).attrs = some (.i64 (-7)) := by decide
 example : Map.lookup [122] (exported exCfg exOps).attrs = none := by decide
 example : (run exCfg exOps).procs.map (·.exports.length) = [1, 1, 1] := by decide
-example : live exOps = exOps.take 4 := by decide
+example : live exOps = exOps.take 5 := by decide
+example : (exported exCfg exOps).links.map (·.traceId) = [[1], [3]] := by decide
 /-- without the final flush a batch processor has exported nothing yet: the flush in `run` is what the statement needs -/
 example : ((exec (init exCfg) exOps).procs.map (·.exports.length)) = [1, 0, 1] := by decide
 
